@@ -903,6 +903,7 @@ theorem decSection_noLen {α : Type} (dc : DataCoder α) {s : SectionLayout} {vs
     (hvs : valsOK s.params vs = true) (h : ∀ w0, encParams payload s.params vs w0 = .ok (w0 ++ x))
     (regD : Registry) (start : Nat) :
     RelVals s.params vs (List.zipWith canonV s.params vs) ∧ hasData s.params = false ∧
+    x.length = (s.params.map (·.nbits)).sum ∧
     ∀ suf, decSection dc s regD start (x ++ suf) = .ok
       (({ index := s.index, params := decAcc s.params (List.zipWith canonV s.params vs), nbits := x.length },
         register regD start 0 s.params (List.zipWith canonV s.params vs), none), suf) := by
@@ -914,8 +915,8 @@ theorem decSection_noLen {α : Type} (dc : DataCoder α) {s : SectionLayout} {vs
     rcases hs.1.1.2 with h0 | h0
     · simpa using h0 p hp
     · rw [hh] at h0; cases h0
-  obtain ⟨_, hd⟩ := decParams_fixed dc payload start s.params vs [] x hfix hvs (h [])
-  refine ⟨relVals_canon _ _ _ _ hg (h []), hasData_false_of_fixed hfix, fun suf => ?_⟩
+  obtain ⟨hxl, hd⟩ := decParams_fixed dc payload start s.params vs [] x hfix hvs (h [])
+  refine ⟨relVals_canon _ _ _ _ hg (h []), hasData_false_of_fixed hfix, hxl, fun suf => ?_⟩
   simp only [decSection, R.bind, hd, finishSection, hh, Bool.false_eq_true, if_false, R.pure, List.nil_append,
     Nat.zero_add, decAcc_canon]
 
@@ -1029,6 +1030,182 @@ theorem decSection_len {α : Type} (dc : DataCoder α) (a : α) {cfg : EncCfg} {
   · have h1 : st1.used + y.length + (z - z') < H * 8 := by omega
     have h3 : H * 8 - (st1.used + y.length + (z - z')) = z' := by omega
     simp only [h1, if_true, R.map, R.bind, readBin, h3, readBits_append_of_length _ _ suf (zeros_length z'), R.pure]
+
+/-- one section, as `encSection` wrote it -/
+theorem decSection_sim {α : Type} (dc : DataCoder α) (a : α) {cfg : EncCfg} {s : SectionLayout} {vs : List PVal}
+    {payload : Bits} {regE : Registry} {w : Bits} {regE1 : Registry} {w' : Bits}
+    (hs : s.WF = true) (hok : layoutOK s = true) (hvs : valsOK s.params vs = true)
+    (h : encSection cfg s vs payload regE w = .ok (regE1, w')) (regD : Registry) (hreg : RegRel regE regD)
+    (hdc : hasData s.params = true → ∀ rD, RegRel (register regE w.length 0 (beforeData s.params) vs) rD →
+      ∀ x, dc.dec rD (payload ++ x) = .ok (a, x)) :
+    ∃ B vsD, w' = w ++ B ∧ RelVals s.params vs vsD ∧ RegRel regE1 (register regD w.length 0 s.params vsD) ∧
+      ∀ suf, decSection dc s regD w.length (B ++ suf) = .ok
+        (({ index := s.index, params := decAcc s.params vsD, nbits := B.length },
+          register regD w.length 0 s.params vsD, if hasData s.params = true then some a else none), suf) := by
+  obtain ⟨hr1, _, B, hw', hcase⟩ := encSection_shape hs h
+  rcases hcase with ⟨hh, x, ed, hx, hB⟩ | ⟨hh, hshape⟩
+  · obtain ⟨hrel, hnd, hxl, hrun⟩ := decSection_noLen dc hs hok hh hvs hx regD w.length
+    have hpad : padBits ed x.length = 0 := by
+      apply padBits_16
+      have : noLenAligned s = true := by
+        simp only [layoutOK, Bool.and_eq_true] at hok; exact hok.1.2
+      simp only [noLenAligned, hh, Bool.false_or, beq_iff_eq] at this
+      rw [hxl]; exact this
+    have hBx : B = x := by rw [hB, hpad]; simp [zeros]
+    subst hBx
+    refine ⟨B, _, hw', hrel, by rw [hr1]; exact RegRel_register _ _ _ _ _ _ _ hrel hreg, fun suf => ?_⟩
+    rw [hrun suf, hnd]; rfl
+  · obtain ⟨vsD, hrel, hrun⟩ := decSection_len dc a hs hok hh hvs hshape regE regD w.length hreg hdc
+    exact ⟨B, vsD, hw', hrel, by rw [hr1]; exact RegRel_register _ _ _ _ _ _ _ hrel hreg, hrun⟩
+
+/-! ## the section loop -/
+
+/-- what the encoder did for one section it wrote: the layout, the values consumed, its registry and
+    the writer position when the section was opened -/
+structure Visit where
+  s : SectionLayout
+  vs : List PVal
+  reg : Registry
+  start : Nat
+
+/-- the sections written by `encLoop` (a mirror of its recursion) -/
+def encVisits (L : Layouts) (cfg : EncCfg) (payload : Bits) :
+    Nat → Nat → List (List PVal) → Registry → Bits → List Visit
+  | 0, _, _, _, _ => []
+  | fuel + 1, idx, vals, reg, w =>
+    match vals with
+    | [] => []
+    | vs :: rest =>
+      match getCfg L idx reg.editionKey with
+      | .error _ => []
+      | .ok s =>
+        match isPresent reg s idx with
+        | .error _ => []
+        | .ok false => encVisits L cfg payload fuel (idx + 1) vals reg w
+        | .ok true =>
+          match encSection cfg s vs payload reg w with
+          | .error _ => []
+          | .ok (reg1, w1) =>
+            { s := s, vs := vs, reg := reg, start := w.length } ::
+              (if s.endOfMessage then [] else encVisits L cfg payload fuel (idx + 1) rest reg1 w1)
+
+/-- the decoded sections against what was supplied -/
+def SecsRel : List Visit → List DecSection → Prop
+  | [], [] => True
+  | v :: vs, sec :: secs =>
+    sec.index = v.s.index ∧ (∃ vsD, sec.params = decAcc v.s.params vsD ∧ RelVals v.s.params v.vs vsD) ∧ SecsRel vs secs
+  | _, _ => False
+
+def visitsHaveData (vs : List Visit) : Bool := vs.any fun v => hasData v.s.params
+
+theorem layoutsOK_mem {L : Layouts} (h : LayoutsOK L = true) {e : LayoutEntry} (he : e ∈ L) : layoutOK e.layout = true :=
+  List.all_eq_true.mp h e he
+
+theorem transform_default (s : SectionLayout) : ({} : DecOpts).transform s = s := rfl
+
+def optOr {α : Type} : Option α → Option α → Option α
+  | some a, _ => some a
+  | none, o => o
+
+theorem decLoop_present {α : Type} {L : Layouts} {dc : DataCoder α} {fuel idx : Nat} {regD : Registry} {out : DecOut α}
+    {s : SectionLayout} {x r : Bits} {sec : DecSection} {reg1 : Registry} {d : Option α}
+    (hcfg : getCfg L idx regD.editionKey = .ok s) (hp : isPresent regD s idx = .ok true)
+    (hsec : decSection dc s regD out.nbits x = .ok ((sec, reg1, d), r)) :
+    decLoop L dc {} (fuel + 1) idx regD out x =
+      if s.endOfMessage then
+        .ok ({ sections := out.sections ++ [sec], data := optOr d out.data, nbits := out.nbits + sec.nbits }, r)
+      else decLoop L dc {} fuel (idx + 1) reg1
+        { sections := out.sections ++ [sec], data := optOr d out.data, nbits := out.nbits + sec.nbits } r := by
+  simp only [decLoop, R.bind, hcfg, R.lift, R.pure, transform_default, hp, Bool.not_true, Bool.false_eq_true, if_false,
+    hsec]
+  by_cases he : s.endOfMessage = true <;> cases d <;> simp [he, R.pure, optOr]
+
+theorem loop_sim {α : Type} (dc : DataCoder α) (a : α) {L : Layouts} {cfg : EncCfg} {payload : Bits}
+    (hL : L.WF = true) (hok : LayoutsOK L = true) :
+    ∀ (fuel idx : Nat) (vals : List (List PVal)) (regE : Registry) (w : Bits) (tr : List (Nat × Nat))
+      (regE' : Registry) (w' : Bits) (tr' : List (Nat × Nat)),
+      encLoop L cfg payload fuel idx vals regE w tr = .ok (regE', w', tr') →
+      (∀ v ∈ encVisits L cfg payload fuel idx vals regE w, valsOK v.s.params v.vs = true) →
+      (∀ v ∈ encVisits L cfg payload fuel idx vals regE w, hasData v.s.params = true →
+        ∀ rD, RegRel (register v.reg v.start 0 (beforeData v.s.params) v.vs) rD →
+          ∀ x, dc.dec rD (payload ++ x) = .ok (a, x)) →
+      ∀ (regD : Registry) (out : DecOut α), RegRel regE regD → out.nbits = w.length →
+      ∃ (B : Bits) (secs : List DecSection), w' = w ++ B ∧
+        SecsRel (encVisits L cfg payload fuel idx vals regE w) secs ∧
+        ∀ suf, decLoop L dc {} fuel idx regD out (B ++ suf) = .ok
+          ({ sections := out.sections ++ secs,
+             data := if visitsHaveData (encVisits L cfg payload fuel idx vals regE w) = true then some a else out.data,
+             nbits := out.nbits + B.length }, suf) := by
+  intro fuel
+  induction fuel with
+  | zero => intro idx vals regE w tr regE' w' tr' h; simp only [encLoop] at h; cases h
+  | succ fuel ih =>
+    intro idx vals regE w tr regE' w' tr' h hvals hdc regD out hreg hout
+    obtain ⟨osecs, odata, onb⟩ := out
+    simp only at hout
+    subst hout
+    cases vals with
+    | nil => simp only [encLoop] at h; cases h
+    | cons vs rest =>
+      simp only [encLoop] at h
+      simp only [encVisits] at hvals hdc ⊢
+      have hek := RegRel_editionKey hreg
+      split at h
+      · cases h
+      rename_i s hcfg
+      obtain ⟨e, heL, hes, hei⟩ := getCfg_mem hcfg
+      have hsWF : s.WF = true := hes ▸ wf_all hL e heL
+      have hsOK : layoutOK s = true := hes ▸ layoutsOK_mem hok heL
+      have hpres := RegRel_isPresent hreg s idx
+      simp only [hcfg] at hvals hdc ⊢
+      split at h
+      · cases h
+      · -- optional section absent
+        rename_i hp
+        simp only [hp] at hvals hdc ⊢
+        obtain ⟨B, secs, h1, h2, h3⟩ := ih _ _ _ _ _ _ _ _ h hvals hdc regD
+          { sections := osecs, data := odata, nbits := w.length } hreg rfl
+        refine ⟨B, secs, h1, h2, fun suf => ?_⟩
+        simp only [decLoop, R.bind, hek, hcfg, R.lift, R.pure, transform_default, hpres, hp, Bool.not_false, if_true,
+          h3 suf]
+      · rename_i hp
+        simp only [hp] at hvals hdc ⊢
+        split at h
+        · cases h
+        rename_i reg1 w1 hsec
+        simp only [hsec] at hvals hdc ⊢
+        obtain ⟨B1, vsD, hw1, hrel, hreg1, hrun⟩ := decSection_sim dc a hsWF hsOK
+          (hvals _ List.mem_cons_self) hsec regD hreg (fun hd rD hr => hdc _ List.mem_cons_self hd rD hr)
+        split at h
+        · -- the final section
+          rename_i hend
+          cases h
+          simp only [hend, if_true] at hvals hdc ⊢
+          refine ⟨B1, [{ index := s.index, params := decAcc s.params vsD, nbits := B1.length }], hw1,
+            ⟨rfl, ⟨vsD, rfl, hrel⟩, trivial⟩, fun suf => ?_⟩
+          rw [decLoop_present (hek ▸ hcfg) (hpres ▸ hp) (hrun suf), if_pos hend]
+          simp only [visitsHaveData, List.any_cons, List.any_nil, Bool.or_false]
+          by_cases hd : hasData s.params = true <;> simp [hd, optOr]
+        · rename_i hend
+          simp only [hend, Bool.false_eq_true, if_false] at hvals hdc ⊢
+          let out1 : DecOut α :=
+            { sections := osecs ++ [{ index := s.index, params := decAcc s.params vsD, nbits := B1.length }],
+              data := optOr (if hasData s.params = true then some a else none) odata,
+              nbits := w.length + B1.length }
+          obtain ⟨B2, secs, h1, h2, h3⟩ := ih _ _ _ _ _ _ _ _ h
+            (fun v hv => hvals v (List.mem_cons_of_mem _ hv))
+            (fun v hv => hdc v (List.mem_cons_of_mem _ hv))
+            (register regD w.length 0 s.params vsD) out1 hreg1
+            (by show w.length + B1.length = w1.length; rw [hw1]; simp)
+          refine ⟨B1 ++ B2, { index := s.index, params := decAcc s.params vsD, nbits := B1.length } :: secs,
+            by rw [h1, hw1, List.append_assoc], ⟨rfl, ⟨vsD, rfl, hrel⟩, h2⟩, fun suf => ?_⟩
+          have h3' := h3 suf
+          rw [List.append_assoc, decLoop_present (hek ▸ hcfg) (hpres ▸ hp) (hrun (B2 ++ suf)), if_neg (by simp [hend])]
+          simp only [out1] at h3'
+          rw [h3']
+          simp only [visitsHaveData, List.any_cons, List.append_assoc, List.cons_append, List.nil_append,
+            List.length_append, Nat.add_assoc]
+          by_cases hd : hasData s.params = true <;> simp [hd, optOr]
 
 end RT
 end Bufr
